@@ -99,6 +99,13 @@ class Ctx:
     def framework_error(self, what):
         self.framework_errors.append(what)
 
+    def impl_crash(self, tb):
+        """the implementation raised in an unguarded set-up call: reported as a correspondence that no longer checks"""
+        self.disagreements.append({"property": self.prop, "op": "harness.setup_call", "input": {"traceback": tb},
+                                   "real": {"err": "raised in the implementation"}, "model": None, "spec": None,
+                                   "note": "a call the harness makes to build a case raised inside /repo; on the tree the "
+                                           "model follows this call succeeds", "seed": self.seed})
+
     # ------------------------------------------------------------------------------------
     def finish(self, proof, level="proof", assumptions=(), extra_cov=None):
         """Print the verdict lines, write evidence, return the exit code."""
